@@ -27,6 +27,13 @@ Monitors (case kinds):
             Key command: no DH key may be stored for an invalid point
   rpa       Address.generate_private_address(irk) resolves under irk (same and other back
             end), not under unrelated IRKs (re-confirmed with a second unrelated IRK)
+  reuse     every object of the layer used MORE THAN ONCE: one smp.AddressResolver (0..8 keys,
+            given as list / tuple / plain Sequence, also the one Device.refresh_resolving_list
+            builds from a key store) answers a whole sequence of interleaved hits, misses and
+            can_resolve_to() questions, each judged by a model that walks the key list with the
+            reference's ah; one EccKey object per back end serves a sequence of dh() calls
+            (valid peers, refused peers, repeats) with x / y read in between; e / aes_cmac / ah
+            are called again with an earlier key after other keys
 
 Entropy is NOT replaced here: generate(), generate_prand() draw from the OS.  Every other
 input is derived from the case seed; failing inputs are printed in full in the violation.
@@ -49,7 +56,11 @@ RULE = ('seeded boundary-biased + random inputs (all-zero, all-one, single-bit, 
         'coordinates >= p incl. ones that reduce to a valid point, right x wrong y, wrong x, '
         'swapped, y=0, foreign-curve, uniform}; CMAC lengths 0..80 exhaustively. Every input is a '
         'full evaluation of both back ends and the reference, so every one is non-trivial; '
-        'distinct = distinct (function, argument bytes).')
+        'distinct = distinct (function, argument bytes). reuse: one AddressResolver per generated key list (0-8 keys; '
+        'list, tuple, plain Sequence; also the one Device.refresh_resolving_list builds) answers 5-14 interleaved '
+        'questions (RPA of key j made by the reference or by bumble, unrelated IRK, damaged hash, can_resolve_to of a '
+        'listed / unlisted identity), one EccKey object per back end serves 4-7 dh() calls (valid, refused, repeated '
+        'peers, an accepted abscissa with a wrong ordinate); non-trivial from the second use of the object on.')
 ASSUMPTIONS = [
     'the reference implementations in vlib/ref_smpcrypto.py and vlib/ref_p256.py are correct; '
     'they reproduce every published vector listed in them (re-checked at the start of each shard)',
@@ -64,13 +75,23 @@ MIN_EVENTS = {
               'toolbox_evals': 5000, 'pubkey_evals': 2000, 'ecdh_evals': 4000,
               'ecdh_symmetry_checks': 2000, 'invalid_keys_offered': 1500,
               'valid_keys_accepted': 500, 'rpa_generated': 2000, 'rpa_unrelated_checked': 2000,
-              'vectors_checked': 80, 'entropy_keys': 100, 'session_keys_offered': 150},
+              'vectors_checked': 80, 'entropy_keys': 100, 'session_keys_offered': 150,
+              'reuse_resolvers': 300, 'reuse_lookups_after_first': 2500, 'reuse_hits_after_first': 800,
+              'reuse_hits_after_a_hit_further_down': 150, 'reuse_misses_after_first': 500,
+              'reuse_can_resolve_after_first': 400, 'reuse_device_resolver_lookups': 150,
+              'reuse_dh_calls_after_first': 250, 'reuse_dh_after_rejected_key': 60,
+              'reuse_fn_repeats': 500},
     'thorough': {'e_evals': 50000, 'cmac_evals': 20000, 'cmac_exhaustive_lengths': 81 * 8,
                  'toolbox_evals': 50000, 'pubkey_evals': 100000, 'ecdh_evals': 200000,
                  'ecdh_symmetry_checks': 100000, 'invalid_keys_offered': 15000,
                  'valid_keys_accepted': 5000, 'rpa_generated': 20000,
                  'rpa_unrelated_checked': 20000, 'vectors_checked': 80, 'entropy_keys': 5000,
-                 'session_keys_offered': 1500},
+                 'session_keys_offered': 1500,
+                 'reuse_resolvers': 3000, 'reuse_lookups_after_first': 25000, 'reuse_hits_after_first': 8000,
+                 'reuse_hits_after_a_hit_further_down': 1500, 'reuse_misses_after_first': 5000,
+                 'reuse_can_resolve_after_first': 4000, 'reuse_device_resolver_lookups': 1500,
+                 'reuse_dh_calls_after_first': 2500, 'reuse_dh_after_rejected_key': 600,
+                 'reuse_fn_repeats': 5000},
 }
 EXHAUSTIVE_NOTE = ('CMAC message lengths 0..80 for 8 keys covering all four (msb(L), msb(K1)) '
                    'sub-key paths; all 128 single-bit keys and blocks of e; every byte value at '
@@ -107,6 +128,8 @@ def plan(tier, seed):
         cases.append({'kind': 'session', 'seed': base + i, 'n': 24})
     for i in range(16 if q else 160):
         cases.append({'kind': 'rpa', 'seed': base + i, 'n': 80})
+    for i in range(16 if q else 160):
+        cases.append({'kind': 'reuse', 'seed': base + i, 'resolvers': 24, 'eccs': 4, 'fn_runs': 6})
     return cases
 
 
@@ -843,11 +866,304 @@ def run_rpa(case, r: R):
     r.sample = sample
 
 
+
+# =============================================================================
+# reuse: every object of the layer is used more than once
+# =============================================================================
+class PlainSequence:
+    """A collections.abc.Sequence that is neither a list nor a tuple (what the annotation
+    `Sequence[tuple[bytes, Address]]` of AddressResolver admits)."""
+
+    def __init__(self, items):
+        self._items = tuple(items)
+
+    def __len__(self):
+        return len(self._items)
+
+    def __getitem__(self, i):
+        return self._items[i]
+
+
+import collections.abc as _abc  # noqa: E402
+
+_abc.Sequence.register(PlainSequence)
+
+
+def model_resolve(keys, ab: bytes):
+    """Walk the key list in order with the REFERENCE's ah (Vol 3 Part H 2.2.2): the first key
+    whose hash equals the address's hash part owns the address."""
+    for j, (irk, ident) in enumerate(keys):
+        if S.ah_le(irk, ab[3:6]) == ab[0:3]:
+            return j, ident
+    return None, None
+
+
+def ref_rpa(rng: random.Random, irk: bytes) -> bytes:
+    """An RPA made by the reference alone: prand with top bits 01, hash = ah(irk, prand)."""
+    prand = rng.randbytes(2) + bytes([0x40 | rng.randrange(64)])
+    return S.ah_le(irk, prand) + prand
+
+
+def lookup_sequence(r: R, rng: random.Random, resolver, keys, bn: str, origin: str, first_index: int = 0):
+    """Ask one resolver a sequence of questions; every answer is judged on its own by the model.
+    Returns the number of lookups made.  `keys` is the harness's own copy of the key list."""
+    from bumble.hci import Address
+
+    n_ops = rng.randint(5, 14)
+    prev_hit = None
+    trace = []
+    for op_i in range(n_ops):
+        nth = first_index + op_i
+        later = nth > 0
+        pos = 'first-lookup' if not later else 'after-first-lookup'
+        c = rng.random()
+        if keys and c < 0.50:
+            op = 'hit'
+        elif c < 0.62:
+            op = 'miss-unrelated'
+        elif keys and c < 0.70:
+            op = 'miss-damaged'
+        elif keys and c < 0.84:
+            op = 'can-hit'
+        elif c < 0.94:
+            op = 'can-miss'
+        else:
+            op = 'miss-unrelated'
+        r.ev('reuse_lookups')
+        r.ev('reuse_lookups_after_first', 1 if later else 0)
+        r.ev('oracle_evals')
+        if op in ('can-hit', 'can-miss'):
+            if op == 'can-hit':
+                q = keys[rng.randrange(len(keys))][1]
+                q = Address(str(q), q.address_type)  # an equal address, not the same object
+            else:
+                q = Address(bytes(rng.randbytes(5) + b'\xC9'), Address.RANDOM_DEVICE_ADDRESS)
+            want = any(bytes(q) == bytes(a) and q.is_public == a.is_public for _, a in keys)
+            with patched(bn):
+                got = call(resolver.can_resolve_to, q)
+            r.ev('reuse_can_resolve_after_first', 1 if later else 0)
+            trace.append(f'{op}:{got[1]}')
+            if got != ('ok', want):
+                r.bad(f'rpa/reuse/can-resolve-to/{"false-negative" if want else "false-positive"}/{pos}',
+                      f'[{origin}, {len(keys)} keys, {bn}] lookup #{nth + 1}: can_resolve_to({q}) -> {got}, '
+                      f'the key list {"holds" if want else "does not hold"} that identity; so far: {trace}')
+            continue
+        if op == 'hit':
+            j = rng.randrange(len(keys))
+            if rng.random() < 0.5:
+                ab = ref_rpa(rng, keys[j][0])
+            else:
+                with patched(bn):
+                    ab = bytes(Address.generate_private_address(keys[j][0]))
+        elif op == 'miss-damaged':
+            ab = bytearray(ref_rpa(rng, keys[rng.randrange(len(keys))][0]))
+            ab[rng.randrange(3)] ^= 1 << rng.randrange(8)
+            ab = bytes(ab)
+        else:
+            ab = ref_rpa(rng, rng.randbytes(16))
+        rpa = Address(ab, Address.RANDOM_DEVICE_ADDRESS)
+        wj, want = model_resolve(keys, ab)
+        with patched(bn):
+            got = call(resolver.resolve, rpa)
+        trace.append(f'{op}:{"-" if got[1] is None else got[1]}')
+        where = f'[{origin}, {len(keys)} keys, {bn}] lookup #{nth + 1} ({op}) rpa={ab.hex()} (LSB first)'
+        if want is not None:
+            r.ev('reuse_hits_after_first', 1 if later else 0)
+            if later and prev_hit is not None and wj <= prev_hit:
+                r.ev('reuse_hits_after_a_hit_further_down')
+            if got[0] != 'ok' or got[1] is None:
+                r.bad(f'rpa/reuse/not-resolved/{pos}',
+                      f'{where}: resolve -> {got}; key #{wj} irk={keys[wj][0].hex()} owns it (identity {want}); '
+                      f'so far: {trace}')
+            elif bytes(got[1]) != bytes(want):
+                r.bad(f'rpa/reuse/wrong-identity/{pos}',
+                      f'{where}: resolve -> {got[1]}, the first matching key is #{wj} with identity {want}')
+            elif got[1].is_public != want.is_public:
+                r.bad(f'rpa/reuse/identity-kind/{pos}',
+                      f'{where}: resolve -> {got[1]} of type {got[1].address_type}, identity {want} has type '
+                      f'{want.address_type}')
+            prev_hit = wj
+        else:
+            r.ev('reuse_misses_after_first', 1 if later else 0)
+            if got != ('ok', None):
+                r.bad(f'rpa/reuse/resolved-under-no-key/{pos}',
+                      f'{where}: resolve -> {got}; no key of the list gives that hash; so far: {trace}')
+    return n_ops
+
+
+def gen_resolving_keys(rng: random.Random, n: int):
+    from bumble.hci import Address
+
+    keys = []
+    for j in range(n):
+        irk = gen_bytes(rng, 16) if rng.random() < 0.3 else rng.randbytes(16)
+        if rng.random() < 0.5:
+            ident = Address(bytes(rng.randbytes(4) + bytes([j, 0xC0 | rng.randrange(64)])),
+                            Address.RANDOM_DEVICE_ADDRESS)
+        else:
+            ident = Address(bytes(rng.randbytes(4) + bytes([j, rng.randrange(256)])), Address.PUBLIC_DEVICE_ADDRESS)
+        keys.append((irk, ident))
+    return keys
+
+
+def run_reuse(case, r: R):
+    import asyncio
+    from bumble.device import Device
+    from bumble.hci import Address
+    from bumble.keys import MemoryKeyStore, PairingKeys
+    from bumble.smp import AddressResolver
+
+    rng = random.Random(case['seed'] ^ 0x2E05E)
+    sample = None
+    # ---- A: one AddressResolver, many questions --------------------------------------
+    for i in range(case['resolvers']):
+        bn = BACKENDS[i % 2]
+        n = (0, 1, 1, 2, 2, 3, 3, 5, 8)[i % 9] if i < 18 else rng.choice([0, 1, 2, 3, 4, 6])
+        keys = gen_resolving_keys(rng, n)
+        if n >= 2 and rng.random() < 0.2:
+            keys[-1] = (keys[0][0], keys[-1][1])  # the same IRK twice: the first entry owns the address
+        container = ('list', 'tuple', 'sequence')[(i // 2) % 3]
+        given = {'list': list, 'tuple': tuple, 'sequence': PlainSequence}[container](keys)
+        res = call(AddressResolver, given)
+        r.ev('reuse_resolvers')
+        r.ev('reuse_container_' + container)
+        r.ev(f'reuse_resolver_keys_{min(n, 4)}{"+" if n >= 4 else ""}')
+        if res[0] != 'ok':
+            r.bad(f'rpa/reuse/constructor-raises/{container}', f'AddressResolver({container} of {n} keys) -> {res}')
+            continue
+        done = lookup_sequence(r, rng, res[1], keys, bn, container)
+        r.ev('oracle_evals')
+        if [(k, bytes(a)) for k, a in given] != [(k, bytes(a)) for k, a in keys] or len(given) != n:
+            r.bad('rpa/reuse/key-list-altered', f'the {container} given to AddressResolver changed during {done} lookups')
+        r.evals()
+        r.sig('reuse-resolver', n, container, bn, tuple(k for k, _ in keys))
+        sample = {'kind': 'reuse', 'keys': n, 'container': container, 'backend': bn, 'lookups': done}
+
+    # ---- B: the resolver a Device builds from its key store ---------------------------
+    async def device_resolver():
+        device = Device()
+        device.keystore = MemoryKeyStore()
+        keys = []
+        for rnd in range(2):
+            for j in range(rng.randint(1, 3)):
+                irk = rng.randbytes(16)
+                typ = rng.choice([Address.PUBLIC_DEVICE_ADDRESS, Address.RANDOM_DEVICE_ADDRESS])
+                ab = bytes(rng.randbytes(4) + bytes([rnd * 8 + j, 0xC0 | rng.randrange(64)]))
+                ident = Address(ab, typ)
+                await device.keystore.update(ident.to_string(False), PairingKeys(address_type=typ, irk=PairingKeys.Key(irk)))
+                keys.append((irk, ident))
+                # a bonded peer without an IRK contributes no resolving key
+                await device.keystore.update(Address(bytes(rng.randbytes(5) + b'\x00')).to_string(False),
+                                             PairingKeys(ltk=PairingKeys.Key(rng.randbytes(16))))
+            await device.refresh_resolving_list()
+            bn = BACKENDS[rnd]
+            n = lookup_sequence(r, rng, device.address_resolver, keys, bn, f'device-refresh-{rnd + 1}')
+            r.ev('reuse_device_resolver_lookups', n)
+        r.ev('reuse_device_resolvers')
+
+    loop = asyncio.new_event_loop()
+    try:
+        loop.run_until_complete(device_resolver())
+    finally:
+        loop.close()
+
+    # ---- C: one EccKey object, many dh() calls ----------------------------------------
+    for i in range(case['eccs']):
+        d, cls = gen_scalar(rng)
+        pub = E.public_key(d)
+        want_pub = (b32(pub[0]), b32(pub[1]))
+        for bn in BACKENDS:
+            k = call(backend(bn).EccKey.from_private_key_bytes, b32(d))
+            if k[0] != 'ok':
+                r.bad(f'pubkey/mismatch/{bn}/scalar={cls.split("-")[0]}', f'from_private_key_bytes({d:#x}) -> {k}')
+                continue
+            key = k[1]
+            read_pub_first = rng.random() < 0.5
+            after = 'first-call'
+            peers = []
+            for c_i in range(rng.randint(4, 7)):
+                if read_pub_first or c_i:
+                    got = call(pub_of, key)
+                    r.ev('reuse_pubkey_reads')
+                    r.check(got == ('ok', want_pub), f'pubkey/reuse/changed/{bn}',
+                            f'{bn} key d={d:#x}: public key read after {c_i} dh() calls ({after}) is {show(got[1])}, '
+                            f'reference ({pub[0]:#x}, {pub[1]:#x})')
+                c = rng.random()
+                if peers and c < 0.2:
+                    px, py, valid = peers[rng.randrange(len(peers))]  # the same peer again
+                    xb, yb = b32(px), b32(py)
+                elif c < 0.30 and any(v for _, _, v in peers):
+                    # the abscissa of a peer this key object accepted before, with a wrong ordinate
+                    px, py, _v = rng.choice([p for p in peers if p[2]])
+                    py = (py + rng.randint(1, 5)) % E.P
+                    if E.on_curve(px, py):
+                        continue
+                    xb, yb, valid = b32(px), b32(py), False
+                    r.ev('reuse_dh_earlier_x_wrong_y')
+                elif c < 0.45:
+                    while True:
+                        xb, yb, _cls, _kind, px, py = gen_invalid_key(rng)
+                        if len(xb) == 32:
+                            break
+                    valid = False
+                else:
+                    px, py = gen_valid_point(rng) if rng.random() < 0.5 else E.public_key(gen_scalar(rng)[0])
+                    xb, yb, valid = b32(px), b32(py), True
+                peers.append((px, py, valid))
+                out = call(key.dh, xb, yb)
+                r.ev('reuse_dh_calls')
+                r.ev('reuse_dh_calls_after_first', 1 if c_i else 0)
+                r.ev('reuse_dh_after_rejected_key', 1 if after == 'after-rejected-key' else 0)
+                r.ev('oracle_evals')
+                if valid:
+                    want = E.ecdh(d, px, py)
+                    if out != ('ok', want):
+                        r.bad(f'dh/reuse/mismatch/{bn}/{after}',
+                              f'{bn} key d={d:#x}, dh() call #{c_i + 1} ({after}) with peer ({px:#x}, {py:#x}): '
+                              f'{out[0]}:{show(out[1])}, reference {want.hex()}')
+                    after = 'after-valid-key'
+                else:
+                    if out[0] == 'ok':
+                        r.bad(f'dh/reuse/invalid-key-accepted/{bn}/{after}',
+                              f'{bn} key d={d:#x}, dh() call #{c_i + 1} ({after}) accepted the off-curve / out-of-range '
+                              f'peer x={xb.hex()} y={yb.hex()} -> {show(out[1])}')
+                    after = 'after-rejected-key'
+            r.evals()
+            r.sig('reuse-ecc', bn, d)
+
+    # ---- D: the functions called again with an earlier key after other keys ------------
+    for i in range(case['fn_runs']):
+        ks = [gen_bytes(rng, 16) for _ in range(3)]
+        order = [0, 1, 0, 2, 1, 0, 0]
+        blk, msg, pr = rng.randbytes(16), rng.randbytes(rng.choice([0, 5, 16, 17, 32, 40])), rng.randbytes(3)
+        for bn in BACKENDS:
+            m = backend(bn)
+            for step, ki in enumerate(order):
+                k = ks[ki]
+                rep = 'repeat' if ki in order[:step] else 'first-use'
+                for name, out, want, args in (
+                        ('e', call(m.e, k, blk), S.e_le(k, blk), (k, blk)),
+                        ('aes_cmac', call(m.aes_cmac, msg, k), S.aes_cmac(k, msg), (msg, k))):
+                    r.ev('oracle_evals')
+                    r.ev('reuse_fn_repeats', 1 if rep == 'repeat' else 0)
+                    if out != ('ok', want):
+                        r.bad(f'{name}/reuse/mismatch/{bn}/{rep}',
+                              f'{bn}.{name}({", ".join(show(a) for a in args)}) as call #{step + 1} of a run over 3 keys '
+                              f'({rep} of this key): {out[0]}:{show(out[1])}, reference {want.hex()}')
+                with patched(bn) as crypto:
+                    out = call(crypto.ah, k, pr)
+                r.ev('oracle_evals')
+                r.ev('reuse_fn_repeats', 1 if rep == 'repeat' else 0)
+                if out != ('ok', S.ah_le(k, pr)):
+                    r.bad(f'ah/reuse/mismatch/{bn}/{rep}', f'ah({k.hex()}, {pr.hex()}) as call #{step + 1} ({rep}): {out}, '
+                          f'reference {S.ah_le(k, pr).hex()}')
+    r.sample = sample
+
 # =============================================================================
 RUNNERS = {
     'vectors': run_vectors, 'aes': run_aes, 'aes-sweep': run_aes_sweep, 'cmac-exh': run_cmac_exh,
     'cmac-rand': run_cmac_rand, 'toolbox': run_toolbox, 'ecc': run_ecc, 'points': run_points,
-    'invalid': run_invalid, 'session': run_session, 'rpa': run_rpa,
+    'invalid': run_invalid, 'session': run_session, 'rpa': run_rpa, 'reuse': run_reuse,
 }
 
 
@@ -867,7 +1183,9 @@ LEVEL_TEXT = ('Three-way differential monitoring: bumble.crypto.builtin and bumb
               'ints), plus all published vectors. Quick: 1.5x10^4 e, 4.5x10^3 CMAC (lengths 0..80 exhaustive for '
               '8 keys covering the four sub-key paths), 8.6x10^3 toolbox, 7.4x10^3 ECDH over 1.5x10^3 scalar '
               'pairs and 640 lifted points, 1.9x10^3 invalid peer keys offered to each back end, ~190 keys '
-              'through smp.Session, 2.5x10^3 RPAs; thorough 2.2x10^5 ECDH, 1.9x10^4 invalid keys. Held = no refuting '
+              'through smp.Session, 2.5x10^3 RPAs, 3.9x10^3 lookups on 384 re-used AddressResolver objects (3.5x10^3 of '
+              'them after the first) and ~600 dh() calls on re-used key objects; thorough 2.2x10^5 ECDH, 1.9x10^4 invalid '
+              'keys, 3.9x10^4 resolver lookups. Held = no refuting '
               'input among those evaluated; this is sampling of a 2^256-sized space, not proof.')
 LEVEL_NOTE = ('Trusted: vlib/ref_smpcrypto.py and vlib/ref_p256.py (self-tested against every published vector '
               'at shard start), CPython big ints, OpenSSL behind the cryptography wheel (it is one of the two '
